@@ -61,4 +61,16 @@ def nonnegB (inst : Instance) : Bool :=
   inst.travel.all (fun e => e.2.nonnegB) &&
   inst.transports.all (fun t => t.outages.all (fun o => o.dur.nonnegB))
 
+/-- a time configuration that is a constant -/
+def TimeCfg.isDetB : TimeCfg → Bool
+  | .det _ => true
+  | .stoch _ => false
+
+/-- no stochastic element anywhere in the instance (what the harness calls "no stochastic objects") -/
+def detInstB (inst : Instance) : Bool :=
+  inst.jobs.all (fun j => j.ops.all (fun o => o.dur.isDetB)) &&
+  inst.machines.all (fun m => m.setup.all (fun e => e.2.isDetB) && m.outages.all (fun o => o.dur.isDetB && o.freq.isDetB)) &&
+  inst.travel.all (fun e => e.2.isDetB) &&
+  inst.transports.all (fun t => t.outages.all (fun o => o.dur.isDetB && o.freq.isDetB))
+
 end JSL
